@@ -12,6 +12,14 @@ and of noise._flush_lock, then runs follow-up sends / incoming frames on the sam
 under a timeout (optionally after disconnect + reconnect).  The same scenario is run through the
 extracted Coq model (table built from the layer list, release_on_raise = true = the repaired code);
 outcome, lock table and the sequence of layers entered must agree for every operation.
+
+Round 9: failures HANDLED inside a layer (harness/c12e2e.py: a real second axolotl identity as the peer contact, real
+session set-up).  A message the axolotl receive layer cannot decrypt is answered with a retry / delivery receipt or a
+get-keys iq and the caller of the read sees nothing; an encrypt can fail on the sending thread.  Afterwards no lock
+may be held -- the layer locks and every lock object reachable from the layers and the manager, asked from a probe
+thread -- and messages to / from the contact with the session (manager.encrypt / decrypt_*) from BOTH threads must be
+processed normally.  A lock of the manager that is taken while its cipher methods run becomes the inner site of the
+model table (coq/C12/C12Inner.v: handlers and re-entrant locks on top of the same lock chain, run_c12i).
 """
 import json, os, queue, threading, time, itertools
 from .. import modelrun
@@ -33,6 +41,20 @@ ASSUME = [
     "INJECTED fault at network/segments is outside the lock model (a real socket error ends the connection); a "
     "frame too large for the segments layer is refused by the noise layer before encryption (repaired finding "
     "oversize-send-consumes-nonce) and is judged without any resynchronisation",
+    "failures handled inside a layer (harness/c12e2e.py): the peer contact is a second real axolotl identity "
+    "(yowsup's AxolotlManager over its own sqlite store), the session is set up through the real path (get-keys iq, "
+    "key bundle, pkmsg, msg); both managers draw a fixed padding length so that python-axolotl 0.2.2's aligned-"
+    "plaintext defect cannot occur; a message that cannot be decrypted (ciphertext / MAC byte flipped, duplicate, no "
+    "session, unknown one-time key) is handled by the real receive layer, an encrypt fails because the store hands out "
+    "an empty session record once (injected at the store, below the manager)",
+    "lock state in that family: Lock.locked() of the layer locks plus, from a probe thread, a non-blocking acquire of "
+    "every lock-like object (acquire/release and locked or _is_owned) found in the instance / class attributes of the "
+    "layers, their sublayers and interfaces, the manager and its direct members, and the globals of their yowsup modules",
+    "inner lock site: a lock-like attribute of the manager is wrapped in a delegating recorder (same lock object "
+    "underneath); if it is taken while encrypt / decrypt_* / group_* run, the model table gets the inner site of "
+    "coq/C12/C12Inner.v (lock node 1 around work node 0, re-entrant iff the object has _is_owned, handler at the "
+    "axolotl receive node) and the scenario is run by run_c12i; the unchanged tree has no such attribute and its "
+    "table is the one of the other families (run_c12; run_c12i with an empty extension must agree with it)",
 ]
 
 LAYERS = ("network", "segments", "noise", "coder", "logger", "axolotl_control", "axolotl_parallel",
@@ -720,6 +742,319 @@ def run_hs_send(ctx, model, scn, seed):
     return probs, diffs, short_obs(obs)
 
 
+# ---------------------------------------------------------------- failures handled INSIDE a layer (end-to-end)
+# The real axolotl layers over the real AxolotlManager on both ends (harness/c12e2e.py): the peer contact is a
+# second axolotl identity, the session is set up through get-keys iq / key bundle / pkmsg / msg.  A message that
+# cannot be decrypted (damaged ciphertext, bad MAC, duplicate, no session, unknown one-time key) is a failure that the
+# receive layer handles itself: the caller of the read sees nothing, a retry receipt / delivery receipt / get-keys iq
+# goes down.  C12 still applies to it: no lock may stay held (the layer locks, and any lock object reachable from the
+# layers and from the manager) and later operations of EVERY thread are processed normally -- a message to the contact
+# with the session runs manager.encrypt, an incoming message runs manager.decrypt_*.  Symmetric case: an encrypt that
+# fails on the sending thread (the store hands out an empty session record once), then a decrypt on the other thread.
+#
+# Model: the same lock chain.  On a tree whose manager has no lock of its own the handled failure is an incoming
+# stanza that the axolotl layer answers downward (kind KIND_AXO_DOWN, as the iq layer answers a server ping) and the
+# table is the one of the other families, run by run_c12.  When the tree has a lock-like attribute on the manager that
+# is taken while the manager's cipher methods run (found at run time, c12e2e.E2ERig.inner_site) the table gets the
+# INNER SITE of coq/C12/C12Inner.v: node 1 = the lock site (re-entrant if the object is), node 0 = the cipher work;
+# every other node moves up by two; the axolotl layer's send / receive enter the site before they hand on, the
+# receive node has a handler for the handled kinds, and the failure is placed at the entry of node 0 (run_c12i).
+KIND_AXO_DOWN, KIND_ENC_UP, KIND_MSG_ENC, KIND_KEYS, KIND_ENC_HANDLED = 3, 4, 5, 6, 7
+AXO = LAYERS.index("axolotl_parallel")
+HANDLED = {   # incoming kind -> (what the layer sends down as its documented reaction, the manager-level failure)
+    "enc_damaged": ("receipt:retry", "InvalidMessage (ciphertext byte flipped)"),
+    "enc_bad_mac": ("receipt:retry", "InvalidMessage (MAC byte flipped)"),
+    "enc_duplicate": ("receipt:None", "DuplicateMessage (the previous message once more)"),
+    "enc_nosession": ("iq:get", "NoSession (message from a contact without a session)"),
+    "enc_bad_prekey_id": ("receipt:retry", "InvalidKeyId (pkmsg naming a one-time key the store never had)"),
+}
+E2E_PRE = [(1, ("send", "msg_session")), (0, ("recv", "enc_ok")), (1, ("send", "presence"))]
+E2E_FOLLOWUPS = [(1, ("send", "msg_session")), (1, ("recv", "enc_ok")), (0, ("send", "presence")),
+                 (1, ("recv", "ack")), (0, ("send", "msg_session"))]
+E2E_FOLLOWUPS_ENCFAIL = [(1, ("recv", "enc_ok")), (1, ("send", "msg_session")), (0, ("recv", "enc_ok")),
+                         (0, ("send", "msg_session")), (1, ("send", "presence"))]
+
+
+class E2ETable(object):
+    """node numbering and table with (inner is not None) or without the inner site"""
+
+    def __init__(self, inner=None, ror_inner=True, ror_down=True, ror_flush=True):
+        self.inner = inner
+        self.off = 2 if inner else 0
+        rows = build_table(ror_down, ror_flush)
+        off = self.off
+
+        def sh(l):
+            return [y + off for y in l]
+        rows = [[r[0], r[1], sh(r[2]), [[k, sh(c)] for k, c in r[3]]] for r in rows]
+        s6, t6, u6, u7 = S(AXO), T(AXO), U(AXO), U(AXO + 1)
+        self.catch, self.reent = [], []
+        if inner:
+            rows = [[0, 1, [], []], [1, 1 if ror_inner else 0, [0], []]] + rows
+            rows[s6 + off][3] += [[KIND_MSG_ENC, [1, t6 + off]]]
+            rows[u6 + off][3] += [[KIND_ENC_UP, [1, u7 + off]], [KIND_KEYS, [1, t6 + off, u7 + off]],
+                                  [KIND_ENC_HANDLED, [1]], [KIND_AXO_DOWN, [t6 + off]]]
+            self.catch = [[u6 + off, KIND_ENC_HANDLED, [t6 + off]]]
+            self.reent = [1] if inner.get("reentrant") else []
+        else:
+            for k in (KIND_AXO_DOWN, KIND_ENC_HANDLED):
+                rows[u6][3] += [[k, [t6]]]
+            rows[u6][3] += [[KIND_KEYS, [t6, u7]]]
+        # the key bundle is an iq result: the send sublayer consumes it (session, encrypt, message down), the receive
+        # sublayer passes every iq on upward, where the iq layer drops a result nobody there asked for
+        rows[u7 + off][3] += [[KIND_KEYS, []]]
+        self.rows = rows
+        self.lock_name = ("manager.%s" % inner["attr"]) if inner else None
+
+    def entry(self, op):
+        return (S(TOP) if op[0] == "send" else U(0)) + self.off
+
+    def kind(self, op):
+        k = op[1]
+        if k == "msg_session_first":
+            return KIND_DEFAULT                 # no session yet: a get-keys iq goes down, no cipher work
+        if k == "msg_session":
+            return KIND_MSG_ENC if self.inner else KIND_DEFAULT
+        if k == "enc_ok":
+            return KIND_ENC_UP if self.inner else KIND_DEFAULT
+        if k == "keys_result":
+            return KIND_KEYS
+        if k in HANDLED:
+            return KIND_ENC_HANDLED
+        return model_kind(op)
+
+    def failspec(self, scn_cause, op):
+        if scn_cause == "handled" and self.inner:
+            return [0, 0, 0]                     # the cipher work raises, under the inner lock
+        if scn_cause == "encrypt_fails":
+            return [0, 0, 0] if self.inner else [S(AXO), 0, 1]
+        return []
+
+    def locks_of_row(self, row):
+        t = lockrow_to_table(row[self.off:])
+        if self.inner:
+            t[self.lock_name] = bool(row[1])
+        return t
+
+    def entry_of_node(self, x):
+        return None if x < self.off else node_to_entry(x - self.off)
+
+    def predict(self, model, executed):
+        if self.inner:
+            r = model.call("run_c12i", [self.rows, self.reent, self.catch, 2, executed])
+        else:
+            r = model.call("run_c12", [self.rows, 2, executed])
+        if isinstance(r, tuple):
+            return None
+        wf, ror_all, rows = r
+        out = []
+        for row in rows:
+            out.append({"outcome": OUTCOME.get(row[0], "?"), "locks": self.locks_of_row(row[1]),
+                        "log": [list(e) for e in (self.entry_of_node(x) for x in row[2]) if e is not None]})
+        return {"wf": bool(wf), "ror_all": bool(ror_all), "ops": out}
+
+
+def gen_e2e(ctx):
+    quick = ctx.tier == "quick"
+    sc = []
+
+    def add(cause, kind, pre, reconnect):
+        sc.append({"cause": cause, "kind": kind, "pre": pre, "reconnect": reconnect, "layer": AXO,
+                   "dir": "up" if cause == "handled" else "down", "occ": 0,
+                   "op": ["recv", kind] if cause == "handled" else ["send", "msg_session"]})
+    for kind in HANDLED:
+        often = kind in ("enc_damaged", "enc_duplicate")
+        for pre in ((0, 1, 2) if (often or not quick) else (1,)):
+            add("handled", kind, pre, False)
+    for pre in (0, 1, 2) if not quick else (0, 2):
+        add("encrypt_fails", "msg_session", pre, False)
+    for kind in ("enc_damaged", "enc_duplicate") if quick else HANDLED:
+        add("handled", kind, 1, True)
+    add("encrypt_fails", "msg_session", 1, True)
+    return sc
+
+
+def run_e2e(ctx, model, scn, seed):
+    """-> (tab, executed, obs, notes) for one scenario of the handled-failure family"""
+    from .. import c12e2e
+    rig = c12e2e.E2ERig(ctx.scratch, seed=seed)
+    ins = Instr(rig)
+    workers = [Worker(), Worker()]
+    executed, obs, notes = [], [], {"fired": 0, "known": [], "inner": None}
+    state = {"blocked": False}
+
+    def do(thread, op, role="op", model_op=None):
+        w = workers[thread]
+        if w.stuck:
+            return None
+        ins.begin_op()
+        fn = (lambda: rig.op_send(op[1])) if op[0] == "send" else (lambda: rig.op_recv(op[1]))
+        if state["blocked"]:
+            # the stack is already wedged (reported): do not spend the grace period again on every further operation
+            box, ev = {}, threading.Event()
+            w.q.put((fn, box, ev))
+            if ev.wait(TIMEOUT):
+                st, r = ("error", box["exc"]) if "exc" in box else ("done", box["r"])
+            else:
+                w.stuck = True
+                st, r = "blocked", None
+        else:
+            st, r = w.run(fn, TIMEOUT)
+        if st == "done":
+            out = {"outcome": r["outcome"], "exc": r["exc"], "wire_frames": r.get("wire_frames", 0),
+                   "wire_error": r.get("wire_error"), "top": len(r.get("top", [])), "top_what": r.get("top", []),
+                   "wire_types": r.get("wire_types", []), "e2e": r.get("e2e", [])}
+        elif st == "blocked":
+            state["blocked"] = True
+            out = {"outcome": "blocked", "exc": None, "wire_frames": 0, "wire_error": None, "top": 0, "top_what": [],
+                   "wire_types": [], "e2e": []}
+        else:
+            out = {"outcome": "harness_error", "exc": repr(r), "wire_frames": 0, "wire_error": None, "top": 0,
+                   "top_what": [], "wire_types": [], "e2e": []}
+        out["locks"] = rig.lock_table()
+        out["probe"] = rig.probe_locks()
+        out["log"] = [list(x) for x in ins.log_of(w.t.ident)]
+        out["role"] = role
+        out["thread"] = thread
+        out["op"] = list(op)
+        out["text"] = rig.sent_texts[-1] if (op == ("send", "msg_session") and rig.sent_texts) else None
+        out["model_op"] = list(model_op or op)
+        obs.append(out)
+        return out
+    try:
+        # session set-up through the real path: application thread = 1, network thread = 0
+        do(1, ("send", "msg_session"), role="setup", model_op=("send", "msg_session_first"))
+        if rig.pending_keys_iq is None:
+            raise c12e2e.RigError("set-up: the first message did not put a get-keys iq on the wire: %r" % short_obs(obs))
+        do(0, ("recv", "keys_result"), role="setup")
+        do(0, ("recv", "enc_ok"), role="setup")
+        for thread, op in E2E_PRE[:scn["pre"]]:
+            do(thread, op, role="pre")
+        if scn["cause"] == "handled":
+            r = do(0, ("recv", scn["kind"]), role="handled")
+            if r is not None and HANDLED[scn["kind"]][0] in r["wire_types"]:
+                notes["fired"] += 1
+            followups = E2E_FOLLOWUPS
+        else:
+            rig.arm_encrypt_failure()
+            r = do(0, ("send", "msg_session"), role="fault")
+            if r is not None and r["outcome"] == "raise":
+                notes["fired"] += 1
+            followups = E2E_FOLLOWUPS_ENCFAIL
+        if scn["reconnect"]:
+            st, r = workers[1].run(lambda: rig.reconnect(), 8.0)
+            notes["reconnect"] = st if st != "error" else "error:%r" % (r,)
+            if st == "blocked":
+                workers[1] = Worker()
+        for thread, op in followups:
+            do(thread, tuple(op), role="followup")
+        notes["inner"] = rig.inner_site()
+    finally:
+        for w in workers:
+            w.stop()
+        try:
+            rig.close()
+        except Exception:
+            pass
+    tab = E2ETable(notes["inner"])
+    for o in obs:
+        mop = tuple(o["model_op"])
+        fs = tab.failspec(scn["cause"], mop) if o["role"] in ("handled", "fault") else []
+        executed.append([o["thread"], tab.entry(mop), tab.kind(mop), fs])
+        if tab.inner:
+            o["locks"][tab.lock_name] = tab.lock_name in o["probe"]
+    return tab, executed, obs, notes
+
+
+def oracle_e2e(scn, obs, notes):
+    probs = []
+    for i, o in enumerate(obs):
+        what = "op %d (%s %s, %s, thread %d)" % (i, o["op"][0], o["op"][1], o["role"], o["thread"])
+        held = held_e2e(o)
+        if o["outcome"] == "blocked":
+            probs.append("%s did not finish within %.1fs: it blocks; locks held: %s" % (what, TIMEOUT, held))
+            continue
+        if held:
+            probs.append("after %s, outcome %s, locks stay held (a probe thread cannot take them): %s"
+                         % (what, o["outcome"], held))
+        if o["role"] == "fault":
+            if o["outcome"] != "raise":
+                probs.append("%s: the failing encrypt was not reported to the caller (outcome %s)" % (what, o["outcome"]))
+            continue
+        if o["outcome"] != "ok":
+            probs.append("%s raised %s at its caller" % (what, o["exc"]))
+            continue
+        kind = o["op"][1]
+        if o["role"] == "handled":
+            want = HANDLED[kind][0]
+            if o["wire_types"] != [want] or o["top"] != 0 or o["wire_error"]:
+                probs.append("%s: %s is handled by the axolotl receive layer with exactly one %s going down and nothing "
+                             "for the application; observed wire=%s application=%s" % (what, HANDLED[kind][1], want,
+                                                                                       o["wire_types"], o["top_what"]))
+        elif kind == "msg_session" and o["role"] != "setup":
+            good = [e for e in o["e2e"] if e[0] == "ok" and e[2] == o["text"]]
+            if o["wire_frames"] != 1 or o["wire_error"] or len(good) != 1:
+                probs.append("%s not processed normally: expected one message frame the peer contact can decrypt to %r; "
+                             "wire=%s peer=%s wire_error=%s" % (what, o["text"], o["wire_types"], o["e2e"], o["wire_error"]))
+        elif kind == "enc_ok":
+            if o["top"] != 1 or not o["top_what"][0].startswith("message:") or o["wire_error"]:
+                probs.append("%s not processed normally: the decrypted message must reach the application once; "
+                             "application=%s wire=%s" % (what, o["top_what"], o["wire_types"]))
+        elif kind == "keys_result":
+            if not [e for e in o["e2e"] if e[0] == "ok"]:
+                probs.append("%s: no decryptable message followed the key bundle; wire=%s peer=%s"
+                             % (what, o["wire_types"], o["e2e"]))
+        elif kind in ("presence", "iq_ping", "ack"):
+            want_wire = 1 if o["op"][0] == "send" else 0
+            want_top = 1 if o["op"] == ["recv", "ack"] else 0
+            if o["wire_error"] or o["wire_frames"] != want_wire or o["top"] != want_top:
+                probs.append("%s not processed normally: wire_frames=%s wire_error=%s top=%s"
+                             % (what, o["wire_frames"], o["wire_error"], o["top"]))
+    if scn["reconnect"] and notes.get("reconnect") != "done":
+        probs.append("reconnect after the failure: %s" % notes.get("reconnect"))
+    return probs
+
+
+def held_e2e(o):
+    """names of the locks held after an operation: the layer table plus whatever else the probe thread cannot take"""
+    probe = [k[:-5] if (k.endswith(".lock") and k[:-5] in LAYERS) else k for k in o["probe"]]
+    return sorted(set([k for k, v in o["locks"].items() if v] + probe))
+
+
+def short_obs_e2e(obs):
+    return [{"op": o["op"], "role": o["role"], "thread": o["thread"], "outcome": o["outcome"], "exc": o["exc"],
+             "held": held_e2e(o),
+             "wire": o["wire_types"], "peer_decrypted": [e[0] for e in o["e2e"]], "application": o["top_what"]}
+            for o in obs]
+
+
+def check_e2e(ctx, model, scn, seed):
+    tab, executed, obs, notes = run_e2e(ctx, model, scn, seed)
+    probs = oracle_e2e(scn, obs, notes)
+    diffs, leaky = [], None
+    if model:
+        pred = tab.predict(model, executed)
+        diffs = compare(obs, pred)
+        if pred is not None and not (pred["wf"] and pred["ror_all"]):
+            diffs.append("the table built for this tree does not satisfy the hypotheses of the theorems (wf=%s ror=%s)"
+                         % (pred["wf"], pred["ror_all"]))
+        if tab.inner is None and pred is not None:
+            # no inner site: the generalised semantics must agree with C12Chain's (inner_conservative_*, extracted)
+            r = model.call("run_c12i", [tab.rows, [], [], 2, executed])
+            r0 = model.call("run_c12", [tab.rows, 2, executed])
+            if r != r0:
+                diffs.append("run_c12i without handlers / re-entrant locks differs from run_c12 on this history")
+        if (probs or diffs) and tab.inner:
+            lt = E2ETable(tab.inner, ror_inner=False)
+            lp = lt.predict(model, executed)
+            if lp is not None and not [d for d in compare(obs, lp) if "layers entered" not in d]:
+                leaky = ("observed lock tables and outcomes equal the model with release_on_raise=false at the inner "
+                         "lock site %s (%s; acquire / work / release without try-finally around work that can raise: "
+                         "C12_inner_leaky_refuted)" % (tab.lock_name,
+                                                       "re-entrant" if tab.reent else "not re-entrant"))
+    return tab, executed, obs, notes, probs, diffs, leaky
+
+
 # ---------------------------------------------------------------- comparison
 OUTCOME = {0: "ok", 1: "raise", 2: "blocked", 3: "model_fuel"}
 
@@ -878,6 +1213,49 @@ def run(ctx):
                                                         "observed": short_obs(obs)}, found_input=False)
         if idx % 37 == 0:
             ctx.add_sample({"scenario": scn, "ops": short_obs(obs)[:8]})
+    n_e2e, inner_sites = 0, set()
+    for idx, scn in enumerate(gen_e2e(ctx)):
+        if n_oracle >= 6 or n_corr >= 6:
+            break
+        try:
+            tab, executed, obs, notes, probs, diffs, leaky = check_e2e(ctx, model, scn, 3000 + idx)
+        except Exception as e:
+            ctx.violation("harness:rig_failed", {"scenario": scn, "error": "%s: %s" % (e.__class__.__name__, e)},
+                          found_input=False)
+            n_corr += 1
+            continue
+        n_e2e += 1
+        evaluations += 1
+        ops_total += len(obs)
+        by_cause[scn["cause"]] = by_cause.get(scn["cause"], 0) + 1
+        inner_sites.add(tab.lock_name)
+        if notes["fired"]:
+            distinct.add(json.dumps([scn["cause"], scn["kind"], scn["pre"], scn["reconnect"]]))
+        else:
+            unfired.append([scn["cause"], scn["kind"], scn["dir"], scn["op"]])
+        if probs:
+            n_oracle += 1
+            small = scn
+            for pre in range(0, scn["pre"]):
+                try:
+                    res = check_e2e(ctx, model, dict(scn, pre=pre), 3000 + idx)
+                except Exception:
+                    continue
+                if res[4]:
+                    small, (tab, executed, obs, notes, probs, diffs, leaky) = dict(scn, pre=pre), res
+                    break
+            ctx.violation("oracle:stack_wedged_after_handled_failure",
+                          {"scenario": small, "seed": 3000 + idx, "problems": probs, "observed": short_obs_e2e(obs),
+                           "inner_lock_site": tab.inner, "classification": leaky, "model_diffs": diffs[:6]})
+        elif diffs:
+            n_corr += 1
+            ctx.violation("correspondence:C12.inner_site", {"scenario": scn, "seed": 3000 + idx, "diffs": diffs[:8],
+                                                            "inner_lock_site": tab.inner,
+                                                            "observed": short_obs_e2e(obs)}, found_input=False)
+        if idx in (0, 7):
+            ctx.add_sample({"scenario": scn, "inner_lock_site": tab.inner, "ops": short_obs_e2e(obs)[:9]}, limit=12)
+    ctx.coverage["handled_failure_cases"] = n_e2e
+    ctx.coverage["inner_lock_sites_found"] = sorted(x for x in inner_sites if x)
     n_coal, n_coal_fail = 0, 0
     for idx, scn in enumerate(coalesced):
         if n_oracle >= 6 or n_corr >= 6:
@@ -988,7 +1366,10 @@ def run(ctx):
              "threads; every layer of the default stack x both directions x positions {0,2} (quick) / {0..4} "
              "(thorough), downward faults also inside the answer to an incoming server ping, 8 real causes, "
              "reconnect variants, thorough adds random histories with 2-4 faults; non-trivial = distinct case in "
-             "which the fault actually fired (exception raised inside the stack)",
+             "which the fault actually fired (exception raised inside the stack); family 'handled': session with a "
+             "real peer identity, positions 0..2, a message the receive layer cannot decrypt (5 kinds) handled on the "
+             "network thread or an encrypt failing on the sending thread, optional reconnect, then 5 follow-ups on both "
+             "threads that run manager.encrypt / decrypt (non-trivial = the documented reaction / the exception was seen)",
         assumptions_text=ASSUME)
 
 
@@ -997,6 +1378,28 @@ def replay(ctx, data):
     scn = case["scenario"]
     exe = ctx.build_model("C12")
     model = modelrun.Model(exe) if exe else None
+    if scn.get("cause") in ("handled", "encrypt_fails"):
+        tab, executed, obs, notes, probs, diffs, leaky = check_e2e(ctx, model, scn, case.get("seed", 0))
+        if model:
+            model.close()
+        print("scenario:", json.dumps(scn))
+        print("inner lock site of the manager:", json.dumps(tab.inner))
+        for o in short_obs_e2e(obs):
+            print("observed:", json.dumps(o))
+        print("expected: a failure the axolotl layer handles itself returns normally with its documented reaction on the "
+              "wire; a failing encrypt raises at its caller; after every operation no lock is held (layer locks and every "
+              "lock object reachable from the layers and the manager, asked from a probe thread); every follow-up of "
+              "both threads is processed normally (C12_inner_locks_free_after / C12_inner_progress)")
+        for p in probs:
+            print("problem:", p)
+        for d in diffs[:8]:
+            print("model-diff:", d)
+        if leaky:
+            print("classification:", leaky)
+        if probs or (diffs and data.get("what_no_longer_checks", "").startswith("correspondence")):
+            print("VIOLATION property=C12 replay=(replayed)")
+            return 1
+        return 0
     if scn.get("cause") in ("coalesced", "concurrent", "handshake_send"):
         fn = {"coalesced": run_coalesced, "concurrent": run_concurrent, "handshake_send": run_hs_send}[scn["cause"]]
         probs, diffs, observed = fn(ctx, model, scn, case.get("seed", 0))
